@@ -334,6 +334,10 @@ func TestC06(t *testing.T) {
 	must["sweep:single-edits-on-copies"] = 0.15
 	must["tedits:drawn"] = 0.05
 	must["twin:second-document-after-the-first"] = 0.01
+	// headings next to body-level bookmarks (bookmarks.go), grids without columns above ordinary rows
+	must["shape:bookmark-range"] = 0.02
+	must["toc-as-first-edit"] = 0.012
+	must["opened-table-empty-grid-above-cells"] = 0.005
 	var crashers []Case
 	if kit.Tier == "thorough" && kit.Shard == 0 && os.Getenv("VERIF_REPLAY") == "" {
 		crashers = nativeFuzz(t) // generator (d); its crashers go through the verdict pipeline as fixed cases
@@ -349,7 +353,8 @@ func TestC06(t *testing.T) {
 			"(o) the optional parts Open only stores (" + strings.Join(ov.Parts, ", ") + "; vocabulary of their lazy, byte-splicing readers extracted from " + ov.Source + ": " + fmt.Sprint(len(ov.Elems)) + " element names, " +
 			fmt.Sprint(len(ov.Attrs)) + " attribute names) as other producers write them - other prefixes, self-closing roots, children in foreign namespaces directly under the root, odd ids, damaged content - " +
 			"together with a drawn script of the follow-up calls that read / extend them (lists, notes, note counts and removals, footnote configuration, style-referring edits, intermediate saves); " +
-			"45% of the cases with a generated main part carry a drawn script of 1-7 edits of the opened tables (row / column / cell / merge / format calls with drawn positions, intermediate saves), 4.5% open their bytes twice and take the second document through the follow-up after the first; " +
+			"headings next to the body-level bookmark marks other producers leave (_Toc and other prefixes; the range covers more than the heading, has no end, ends with another bookmark's end, is collapsed or nested; the heading is the last block); " +
+			"45% of the cases with a generated main part carry a drawn script of 1-7 edits of the opened tables (row / column / cell / merge / format calls with drawn positions, column widths 0 / negative / 1 / 1000 / 12240, intermediate saves), 4.5% open their bytes twice and take the second document through the follow-up after the first; " +
 			"non-trivial = the bytes are a readable zip containing word/document.xml, the case is not the unmodified standard package, and at least one start element of the main part tokenises; " +
 			"distinct = distinct (generator, element skeleton with bucketed repetition/nesting, prolog, fault operators, container operators, open outcome)",
 		Gen: genStamped, Run: run, Findings: findings, Fixed: func() []Case { return append(fixed(), crashers...) },
@@ -358,7 +363,7 @@ func TestC06(t *testing.T) {
 			"well-formedness of the regenerated main part is decided by the harness's own checker, not by a schema validator",
 			"the package-level clause T3.p3 is demanded only when the input's content types and package relationships were the standard ones or in the class the library replaces by defaults (absent, or not readable as XML up to the end of the root element)",
 			"per opened document the table script runs on at most 6 tables and visits at most 3000 cells per table",
-			"the single-edit sweep (every row / column position up to 12, every cell of the first 12 x 12: InsertRow, DeleteRow, InsertColumn, DeleteColumn, ClearTable, ClearCellParagraphs, MergeCellsVertical / Horizontal, UnmergeCells, ClearCellContent, SetCellText, AddNestedTable, each on its own CopyTable() copy) runs on opened tables of at most 150 cells + paragraphs + runs (nested tables included) without a span above 2000, at most 220 edits per document (all positions first, then an even selection of the cell edits); 32 evenly chosen copies join the document through Body.AddElement and are saved with it - that save is judged for panics always, for well-formedness when its main part is at most 48 KB",
+			"the single-edit sweep (every row / column position up to 12, every cell of the first 12 x 12: InsertRow, DeleteRow, InsertColumn, DeleteColumn, InsertColumn / AppendColumn without a width (0) and with a negative one, ClearTable, ClearCellParagraphs, MergeCellsVertical / Horizontal, UnmergeCells, ClearCellContent, SetCellText, AddNestedTable, each on its own CopyTable() copy) runs on opened tables of at most 150 cells + paragraphs + runs (nested tables included) without a span above 2000, at most 220 edits per document (all positions first, then an even selection of the cell edits); 32 evenly chosen copies join the document through Body.AddElement and are saved with it - that save is judged for panics always, for well-formedness when its main part is at most 48 KB",
 			"a live heap above 2.5 GB ends the process like the per-case watchdog does (a call that allocates in a loop that never ends); the driver replays the case",
 			"the clause on the re-saved optional parts (numbering, notes, settings, styles) is demanded only for a part the input carried well-formed (harness checker, UTF-8) or did not carry, and decided on parts up to 1 MB",
 			"memory exhaustion is out of scope: generated parts are capped at 4 MB (thorough 12 MB)",
